@@ -34,13 +34,14 @@ func UpdateCase(r *rand.Rand, name string, o UpdateOpts) *Case {
 	ctxD := decl(src, "Ctx", Struct(F("ID", Basic("string"))))
 	fields := map[string]vref.FieldSpec{}
 	var methLines, convLines []string
-	kinds := []string{"basic", "basic", "namedbasic", "struct", "slice", "map", "ptrbasic", "ptrstruct", "chan", "any", "identslice", "identptr", "ignore", "missing", "rename", "func", "basic2ptr", "funcfield", "computed", "mapfunc", "mapfunclist", "mapfuncany", "namedslice", "namedmap", "whole", "wholefunc", "nestedptr", "slice2ptr", "struct2ptr"}
+	kinds := []string{"basic", "basic", "namedbasic", "struct", "slice", "map", "ptrbasic", "ptrstruct", "chan", "any", "identslice", "identptr", "ignore", "missing", "rename", "func", "basic2ptr", "funcfield", "computed", "mapfunc", "mapfunclist", "mapfuncany", "namedslice", "namedmap", "whole", "wholefunc", "nestedptr", "slice2ptr", "struct2ptr", "genericstruct"}
 	needSkip, needMissing := false, false
 	computed := false
 	funcSrc := ""
 	var mapFuncs, wholeFuncs []string
 	wholeUsed, needBase := false, false
 	nestedPtr := false
+	var genDecl, genDeclT *Decl
 	unnamedSource := r.Intn(5) == 0
 	used := map[string]bool{}
 	nf := 3 + r.Intn(6)
@@ -142,6 +143,16 @@ func UpdateCase(r *rand.Rand, name string, o UpdateOpts) *Case {
 			methLines = append(methLines, "map "+f+"In "+f+"Out | "+fn)
 			fields[f+"Out"] = vref.FieldSpec{Path: []string{f + "In"}, Func: "fn:" + fn}
 			mapFuncs = append(mapFuncs, fn)
+		case "genericstruct":
+			// an instantiated generic struct on both sides (comparable): its zero value has to be spelled with the type arguments
+			if genDecl == nil {
+				genDecl = decl(src, "Gen", Struct(F("V", Basic("T")), F("N", Basic("int"))))
+				genDecl.TypeParams = []string{"T"}
+				genDeclT = decl(tgt, "GenT", Struct(F("V", Basic("T")), F("N", Basic("int"))))
+				genDeclT.TypeParams = []string{"T"}
+			}
+			sS.Fields = append(sS.Fields, F(f, &Type{K: KNamed, Decl: genDecl, Args: []*Type{Basic(b)}}))
+			tS.Fields = append(tS.Fields, F(f, &Type{K: KNamed, Decl: genDeclT, Args: []*Type{Basic(b)}}))
 		case "slice2ptr":
 			// inline T -> *U of a composite
 			sS.Fields = append(sS.Fields, F(f, Slice(Basic(b))))
